@@ -3,6 +3,7 @@
 -/
 import Mhub2.Votes
 import Mhub2.Oracle
+import Mhub2.Abi
 import Mhub2.Generated.Facts
 namespace Mhub2
 
@@ -274,7 +275,33 @@ def applyW (w : World) : Op → World × String
     (w, s!"oracle epoch={w.oracle.epoch} prices={showItems w.oracle.prices} holders={showItems w.oracle.holders} pvotes={joinWith "," w.oracle.priceVotes} hvotes={joinWith "," w.oracle.holderVotes}")
   | op => let (h, o) := apply w.hub op; ({ w with hub := h }, o)
 
-def step (w : World) (line : String) : World × String := applyW w (parseOp line)
+/-- Pure queries that do not touch the state (checkpoint digests, ABI encodings). -/
+def pureQuery : List String → Option String
+  | ["ckpt_set", gid, nonce, members] => do
+    let n ← nonce.toNat?
+    let ms ← parseSigners members
+    match checkpointSignerSet gid n ms with
+    | some d => some (hexOfBytes d)
+    | none => some "panic"
+  | ["ckpt_batch", gid, nonce, timeout, token, txs] => do
+    let n ← nonce.toNat?
+    let t ← timeout.toNat?
+    let items ← (if txs == "-" then some [] else (txs.splitOn ";").mapM fun it =>
+      match it.splitOn ":" with
+      | [a, d, f] => do some ((← a.toNat?), hexToBytes (strip0x d), (← f.toNat?))
+      | _ => none)
+    let b : BatchView := { amounts := items.map (·.1), destinations := items.map (·.2.1), fees := items.map (·.2.2),
+                           nonce := n, token := hexToBytes (strip0x token), timeout := t }
+    match checkpointBatch gid b with
+    | some d => some (hexOfBytes d)
+    | none => some "panic"
+  | ["ethmsg", digest] => some (hexOfBytes (ethSignedMessage (hexToBytes digest)))
+  | _ => none
+
+def step (w : World) (line : String) : World × String :=
+  match pureQuery ((line.trimAscii.toString.splitOn " ").filter (· != "")) with
+  | some o => (w, o)
+  | none => applyW w (parseOp line)
 
 /-- The state reached by a history of operations from genesis. -/
 def runOps (ops : List Op) : Hub := ops.foldl (fun h op => (apply h op).1) initialHub
